@@ -393,5 +393,32 @@ def main():
     return check(a.pid, a.tier, a.seed, a.sub)
 
 
+SCRATCH = {"C08": "vf_c08_", "C09": "vf_fz_", "C17": "vf_c17_"}
+
+
+def clean_scratch(pid, t0):
+    """removes the private scratch directories that killed or crashed workers of this run left on /dev/shm"""
+    pre = SCRATCH.get(pid)
+    if not pre:
+        return
+    import glob, shutil
+    for d in glob.glob("/dev/shm/" + pre + "*"):
+        try:
+            if os.path.getmtime(d) >= t0 - 2:
+                shutil.rmtree(d, ignore_errors=True)
+        except OSError:
+            pass
+
+
+def main_clean():
+    t0 = time.time()
+    try:
+        return main()
+    finally:
+        pid = next((x for x in sys.argv[1:] if x in PROPS), None)
+        if pid:
+            clean_scratch(pid, t0)
+
+
 if __name__ == "__main__":
-    sys.exit(main())
+    sys.exit(main_clean())
